@@ -367,4 +367,5 @@ func runC03(r *run) {
 	overlapDelivery(r.violate)
 	flakyNeighbour(r.violate)
 	customErrorDevices(r.violate)
+	lateErrorDeviceLevels(r.violate)
 }
